@@ -17,12 +17,14 @@ Cmds(s) ==
     {[k |-> "w", path |-> "", whole |-> FALSE, beg |-> 0, end |-> 1, force |-> FALSE, fault |-> ""] : x \in {y \in {1} : n >= 2}} \cup
     {[k |-> q, force |-> f, fault |-> ""] : q \in {"q", "wq", "x", "xa"}, f \in BOOLEAN} \cup
     {[k |-> "b", how |-> h, n |-> 2, force |-> FALSE] : h \in {"next", "prev", "alias", "del"}} \cup
+    {[k |-> "n", dis |-> d] : d \in {x \in {-1, 1} : s.args # <<>>}} \cup
     {[k |-> "a", n |-> 2], [k |-> "d"], [k |-> "u"], [k |-> "redo"], [k |-> "top"], [k |-> "wp"]} \cup
     {[k |-> "se", opt |-> o, val |-> v] : o \in {"aw", "wa"}, v \in BOOLEAN} \cup
     {[k |-> "touch", path |-> p] : p \in Paths} \cup
     {[k |-> "line", cs |-> cs] : cs \in {<<[k |-> "top"], [k |-> "d"], W0, [k |-> "d"]>>, <<[k |-> "d"], W0, [k |-> "u"]>>, <<W0, [k |-> "d"]>>}}
 
-Init == st = NewState(Paths, NB) /\ steps = 0 /\ trail = <<>>
+(* started without file arguments, or with all the paths as arguments *)
+Init == st \in {NewState(Paths, NB), WithArgs(NewState(Paths, NB), SetToSeq(Paths))} /\ steps = 0 /\ trail = <<>>
 Next == /\ ~st.quit /\ steps < MaxSteps
         /\ \E c \in Cmds(st) : st' = Step(st, c) /\ trail' = Append(trail, c)
         /\ steps' = steps + 1
